@@ -484,6 +484,16 @@ func solveOne(o *Obligation, wd *workDir, timeoutS int, agree bool) {
 			}
 		}
 	}
+	if best.Status == "unknown" && stageable && os.Getenv("GCV_NORETRY") == "" {
+		// no answer within the budget: before this is reported, rule out that the machine was just
+		// busy (several checks running side by side) - one more attempt with four times the time
+		r2, a2 := solvePortfolio(f, 4*timeoutS, agree)
+		if r2.Status != "unknown" {
+			r2.Seconds += best.Seconds
+			r2.Solver += "(retry)"
+			best, all = r2, a2
+		}
+	}
 	if agree && best.Status == "unsat" {
 		n := 0
 		for _, r := range all {
